@@ -63,6 +63,7 @@ def run(ctx, sess):
     ctx.rule('C04.5', 'extent agreement: writer and reader pass the same extent to the CRC (file header: offsetof(crc32); '
                       'payload: the header\'s payload_length for the same buffer that is written/read; header variant: 28 bytes)')
     ctx.rule('C04.7', 'failed read is not consumed: with the result of a read-chain call non-zero, no load of the call\'s output objects (header, payload buffer, core chunk state) is reachable before another read refills them')
+    ctx.rule('C04.8', 'buffer freshness: payload bytes in the core read buffer are consumed only after a checked chunk read (or reconstruction) succeeded on that very path; no reader reuses the buffer across calls')
     ctx.rule('C04.6', 'error consumption on the read chain: no result of a read-chain function is discarded')
 
     fread_sites = P.callers().get('jls_bk_fread', [])
@@ -189,6 +190,7 @@ def run(ctx, sess):
 
     _extent_agreement(ctx, sess, P, hdr_off_crc, fh_off_crc)
     _consumption(ctx, P, exc)
+    _freshness(ctx, P, exc)
 
 
 def _footer_le(fn, cmp_block, dpath, size_arg):
@@ -467,3 +469,119 @@ def _consumption(ctx, P, exc):
                     ctx.note('exception %s: %s' % (k, exc[k]))
                 else:
                     ctx.ob('C04.7', r[0], fn.name, 'failure of %s()' % name, ev.where(), r[1], r[2])
+
+
+def _freshness(ctx, P, exc):
+    from ..guard import zero_edges_of_call
+    from ..graph import ret_class
+    BASE = {'jls_core_rd_chunk', 'reconstruct_omitted_chunk'}
+    for b in BASE:
+        P.fn(b)
+
+    def is_buf_path(fn, nd):
+        p = fn.path(nd)
+        return p is not None and len(p) >= 3 and p[-1] == '.buf' and p.root_kind in ('param', 'local')
+
+    def uses(fn):
+        """events that consume the payload bytes of <core>.buf"""
+        out = []
+        for ev in fn.events():
+            if ev.e is None:
+                continue
+            hit = False
+            if ev.k == 'call' and ev.callee and ev.callee.startswith('jls_buf_rd_') and ev.args and is_buf_path(fn, strip_casts(ev.args[0])):
+                hit = True
+            if ev.k == 'call' and ev.callee == 'jls_buf_copy' and len(ev.args) > 1 and is_buf_path(fn, strip_casts(ev.args[1])):
+                hit = True
+            if not hit and ev.k in ('call', 'store', 'decl', 'ret'):
+                for nd in walk(ev.e):
+                    if nd.get('op') == 'member' and nd.get('field') in ('start', 'cur') and nd.get('rec') == 'jls_buf_s' and is_buf_path(fn, nd['k'][0]):
+                        # destination of a raw read / own pointer bookkeeping is not a use
+                        if ev.k == 'call' and ev.callee in ('jls_raw_rd', 'jls_raw_rd_payload', 'jls_bk_fread', 'jls_raw_wr', 'jls_buf_realloc'):
+                            continue
+                        if ev.k == 'store' and strip_casts(ev.store_parts()[0]).get('op') == 'member' and strip_casts(ev.store_parts()[0]).get('rec') == 'jls_buf_s':
+                            continue
+                        hit = True
+            if hit:
+                out.append(ev)
+        return out
+
+    # refreshers: every zero return passes the zero edge of a refresher call
+    refreshers = set(BASE)
+    changed = True
+    while changed:
+        changed = False
+        for g in P.all_functions():
+            if g.name in refreshers or g.ret != 'i32':
+                continue
+            calls = [c for c in g.calls() if c.callee in refreshers]
+            if not calls:
+                continue
+            edges = set()
+            for c in calls:
+                edges |= zero_edges_of_call(g, c)
+            retd = [c for c in calls if any(r.e is not None and strip_casts(r.e).get('id') == c.e.get('id') for r in g.returns())]
+            w = find_path(g, 'entry', lambda ev, facts: ('stop' if any(ev.e is not None and ev.k == 'ret' and strip_casts(ev.e).get('id') == c.e.get('id') for c in retd) else
+                                                       ('target' if ev.k == 'ret' and ret_class(g, ev, facts) in ('zero', 'unknown') else None)),
+                          edge_ok=lambda b, s_, label: (b.id, label) not in edges)
+            if w is None:
+                refreshers.add(g.name)
+                changed = True
+    ctx.note('C04.8: buffer refreshers derived: %s' % sorted(refreshers))
+    reader_side = [f for f in P.all_functions() if f.file in ('src/core.c', 'src/reader.c', 'src/track.c') and
+                   not f.name.startswith(('jls_core_wr_', 'jls_track_wr_', 'jls_wr_'))]
+    memo = {}
+
+    def unfresh(fn):
+        """witness of a use of the buffer reachable from fn's entry with no refresher success before it"""
+        if fn.name in memo:
+            return memo[fn.name]
+        memo[fn.name] = None
+        us = uses(fn)
+        edges = set()
+        for c in fn.calls():
+            if c.callee in refreshers:
+                edges |= zero_edges_of_call(fn, c)
+        res = None
+        for u in us:
+            w = find_path(fn, 'entry', lambda ev, facts: 'target' if ev is u else None, edge_ok=lambda b, s_, label: (b.id, label) not in edges)
+            if w is not None:
+                res = (u, w)
+                break
+        if res is None:
+            # calls to functions that need a fresh buffer at entry
+            for c in fn.calls():
+                g = P.functions.get(c.callee)
+                if g is None or g is fn or g.name in refreshers or g not in reader_side:
+                    continue
+                ug = unfresh(g)
+                if ug is None:
+                    continue
+                w = find_path(fn, 'entry', lambda ev, facts: 'target' if ev is c else None, edge_ok=lambda b, s_, label: (b.id, label) not in edges, refine=False)
+                if w is not None:
+                    res = (c, w)
+                    break
+        memo[fn.name] = res
+        return res
+
+    n = 0
+    for fn in reader_side:
+        if not uses(fn) and not any(c.callee in [g.name for g in reader_side] for c in fn.calls()):
+            continue
+        callers = [cf for cf, cev in P.callers().get(fn.name, []) if cf is not fn]
+        r = unfresh(fn)
+        # a function that needs a fresh buffer at entry is fine when it is internal and every caller provides one
+        if r is not None and callers and not fn.api:
+            continue
+        if not uses(fn) and r is None:
+            continue
+        n += 1
+        k = '%s:buffer-freshness' % fn.name
+        if r is not None and k in exc:
+            ctx.note('exception %s: %s' % (k, exc[k]))
+            continue
+        ctx.ob('C04.8', r is None, fn.name, 'read buffer is fresh where its bytes are used', fn.where(),
+               'every use follows a successful checked read / reconstruction on the same path' if r is None else
+               'bytes of the read buffer are used at %s without a successful checked read before it on that path (a cached or failed read would be returned as valid)' % r[0].where(),
+               r[1].render() if r else None)
+    ctx.floor('reader functions using the read buffer', n, 8)
